@@ -140,12 +140,15 @@ func VerifInsertPosNode16(keys *[16]byte, n uint8, b byte) int {
 
 var verifDummy [16]alphaLeafNode[int]
 
+// verifSetLen stores a fill count whatever integer type the header uses for it.
+func verifSetLen[T ~uint8 | ~uint16 | ~uint32](p *T, n uint8) { *p = T(n) }
+
 // VerifProbe4 crafts a 4-slot node with the given raw lanes and fill count and
 // looks every byte value up through the library's own findChild. The result is
 // the slot found, or -1.
 func VerifProbe4(keys uint32, n uint8) (res [256]int8) {
 	n4 := &node4{keys: keys}
-	n4.childrenLen = n
+	verifSetLen(&n4.childrenLen, n)
 	for i := range n4.children {
 		n4.children[i] = nodeRef{pointer: unsafe.Pointer(&verifDummy[i]), tag: nodeKindLeaf}
 	}
@@ -167,7 +170,7 @@ func VerifProbe4(keys uint32, n uint8) (res [256]int8) {
 // VerifProbe16 is VerifProbe4 for the 16-slot class.
 func VerifProbe16(keys [16]byte, n uint8) (res [256]int8) {
 	n16 := &node16{keys: keys}
-	n16.childrenLen = n
+	verifSetLen(&n16.childrenLen, n)
 	for i := range n16.children {
 		n16.children[i] = nodeRef{pointer: unsafe.Pointer(&verifDummy[i]), tag: nodeKindLeaf}
 	}
